@@ -10,8 +10,8 @@
 //   3. runs it from a fixed structured set of states: 4 base patterns x (1 + 2 perturbations of every location that is NOT
 //      reported as read), no randomness,
 //   4. checks
-//        write coverage     a location whose value changed is reported written (GP/vector: changed bytes within write|extend
-//                           byte mask; mask registers; each changed status flag in write_flags(); memory only inside
+//        write coverage     a location whose value changed is reported written (GP/vector: changed bytes - all 64 of a
+//                           vector register - within write|extend byte mask; mask registers; each changed status flag in write_flags(); memory only inside
 //                           [ea, ea+size) of an operand reported kWrite); bytes claimed zero-extended (kZExt) are zero
 //        non-interference   perturbing a location that is not reported read changes no reported output (flags the db marks
 //                           undefined 'U' and the perturbed flag itself - a conditionally written flag keeps its value - are
@@ -349,6 +349,7 @@ struct Sets {
   uint8_t gp_w[16] = {}, gp_z[16] = {};       // byte masks (write|extend) / claimed-zero bytes
   uint64_t vec_w[32] = {};                     // reported output bytes: (write|extend mask) within the operand's width
   bool vec_written[32] = {};
+  uint64_t vec_cover[32] = {};                 // write|extend byte masks of every operand naming the register (all 64 bytes)
   bool k_w[8] = {};
   bool mem_read[6] = {}, mem_write[6] = {};
   bool gp_addr[16] = {};                         // used as base / index of a memory operand
@@ -375,6 +376,7 @@ static void collect(const Case& c, const InstRWInfo& rw, Sets& s) {
           // writes (movss xmm, xmm) inside the operand's own width - what a legacy SSE / VEX instruction does to the
           // bytes above its operand width is not judged
           s.vec_written[d.id] = true;
+          s.vec_cover[d.id] |= we;
           s.vec_w[d.id] |= we & (d.size >= 64 ? ~uint64_t(0) : ((uint64_t(1) << d.size) - 1));
         }
         break;
@@ -398,7 +400,7 @@ static void collect(const Case& c, const InstRWInfo& rw, Sets& s) {
         if (d.vindex >= 0) {
           s.vec_addr[d.vindex] = true;
           if (o.is_mem_index_read()) s.vec_read[d.vindex] = true;
-          if (o.is_mem_index_write()) { s.vec_w[d.vindex] = ~uint64_t(0); s.vec_written[d.vindex] = true; }
+          if (o.is_mem_index_write()) { s.vec_w[d.vindex] = ~uint64_t(0); s.vec_written[d.vindex] = true; s.vec_cover[d.vindex] = ~uint64_t(0); }
         }
         break;
       default: break;
@@ -531,6 +533,14 @@ struct Judge {
       if (ch && !s.vec_written[v]) {
         snprintf(b, sizeof b, "zmm%u changes in bytes %#" PRIx64 " (base state %d) but no operand reports it written", v, ch, p);
         viol("missing-write:" + loc_key(c, Loc{Loc::VEC, v}), b);
+      }
+      else if (ch & ~s.vec_cover[v]) {
+        // byte level (under-reporting only): every byte of the register that changed - also the bytes a VEX / EVEX
+        // instruction zeroes above its operand width - lies in write_byte_mask | extend_byte_mask.  Bytes that are
+        // reported but do not change (legacy SSE "zero extension" above bit 127) are over-reporting and not judged.
+        snprintf(b, sizeof b, "zmm%u changes in bytes %#" PRIx64 " (base state %d) but write|extend byte mask of the operand is %#" PRIx64
+                 " (bytes %#" PRIx64 " unreported)", v, ch, p, s.vec_cover[v], ch & ~s.vec_cover[v]);
+        viol("byte-mask", b);
       }
     }
     for (uint32_t k = 0; k < 8; k++)
